@@ -191,6 +191,7 @@ class C10(object):
         f = W.f
         ref = Ref(kind)
         subs = []
+        self.obs = []
         ops = list(case.get("ops", []))
         if kind.startswith("susp_"):
             # the history is applied while the task is suspended, from inside the flush body of
@@ -228,7 +229,7 @@ class C10(object):
         nset = sum(1 for o in case.get("ops", []) if o[0].startswith("set_"))
         sig = kind + ":" + ",".join(o[0] for o in case.get("ops", []))
         return {"violations": out, "stats": {"events": len(case.get("ops", [])), "probes": {"kind:" + kind: 1, "double_set": 1 if nset >= 2 else 0}},
-                "sig": sig, "nontrivial": len(case.get("ops", [])) >= 3, "digest": sig}
+                "sig": sig, "nontrivial": len(case.get("ops", [])) >= 3, "digest": sig + "|" + repr(self.obs)}
 
     def _apply(self, kind, W, f, ref, subs, out, ops, suspended):
         nset = 0
@@ -309,6 +310,7 @@ class C10(object):
                     exp = got = ("V", None)
             except BaseException as e:  # harness-unexpected
                 got = ("E", "UNEXPECTED:" + type(e).__name__ + ":" + str(e)[:80])
+            self.obs.append((op, got))
             if exp != got:
                 out.append(("operation", "%s: op #%d %s -> %r, reference state machine says %r (history %s)"
                             % (kind, idx, op, got, exp, [o[0] for o in ops[:idx + 1]])))
